@@ -2254,6 +2254,18 @@ class Evaluator:
         e0 = self.strip(inner[0])
         if typeclass(qt(inner[0])) == 'lockguard':
             # a helper handing its guard to the caller: no release here, the caller's variable owns the lock from now on
+            if e0.get('kind') in ('CXXConstructExpr', 'CallExpr'):
+                # `return guard;` / `return std::move(guard);` of a move-only guard: a move construction from the local guard
+                x = e0
+                while x.get('kind') in ('CXXConstructExpr', 'CallExpr', 'MaterializeTemporaryExpr', 'ImplicitCastExpr') and \
+                        len([c for c in x.get('inner', []) if c.get('kind')]) in (1, 2):
+                    kids = [c for c in x.get('inner', []) if c.get('kind')]
+                    nxt = self.strip(kids[-1])
+                    if typeclass(qt(nxt)) != 'lockguard':
+                        break
+                    x = nxt
+                if x.get('kind') == 'DeclRefExpr' and typeclass(qt(x)) == 'lockguard':
+                    e0 = x
             if e0.get('kind') == 'DeclRefExpr':
                 gl = st.env.get(e0['referencedDecl']['id'])
                 for i, g in enumerate(st.guards):
